@@ -207,3 +207,48 @@ def reaches(o, target, limit=5000):
             if d:
                 stack.extend(d.values())
     return False
+
+
+def module_state():
+    """label -> S(value) of every module-level object and data-valued class attribute of the live package.
+
+    Rendering and building may not write to any of these: they are shared by every statement of the process (the type
+    constants of SqlTypes, the pseudo columns, the dialect contexts, per-class tables)."""
+    import importlib
+    import pkgutil
+    import sys
+
+    pin_repo()
+    pkg = importlib.import_module("pypika_tortoise")
+    for m in pkgutil.walk_packages(pkg.__path__, "pypika_tortoise."):
+        try:
+            importlib.import_module(m.name)
+        except Exception:
+            pass
+    out = {}
+    skip = (types.ModuleType, types.FunctionType, types.BuiltinFunctionType, types.MethodType, staticmethod, classmethod, property)
+    for modname, mod in sorted(sys.modules.items()):
+        if mod is None or not (modname == "pypika_tortoise" or modname.startswith("pypika_tortoise.")):
+            continue
+        for n, o in sorted(vars(mod).items()):
+            if n.startswith("__") or isinstance(o, skip):
+                continue
+            if isinstance(o, type):
+                if getattr(o, "__module__", None) != modname:
+                    continue
+                for an, av in sorted(vars(o).items()):
+                    if an.startswith("__") or isinstance(av, skip) or (callable(av) and not isinstance(av, type) and not hasattr(av, "get_sql")):
+                        continue
+                    if type(av).__name__ in ("member_descriptor", "getset_descriptor", "wrapper_descriptor", "method_descriptor", "_abc_data"):
+                        continue
+                    if an.startswith("_abc_") or an in ("_member_map_", "_value2member_map_", "_member_names_", "_hashable_values_", "_unhashable_values_"):
+                        continue
+                    out["%s.%s.%s" % (modname, n, an)] = S(av)
+                if isinstance(o, type) and issubclass(o, enum.Enum):
+                    for mem in o:
+                        out["%s.%s[%s]" % (modname, n, mem.name)] = S(mem.value)
+                continue
+            if getattr(type(o), "__module__", "").startswith("typing") or type(o).__name__ in ("TypeVar", "_SpecialForm", "Logger"):
+                continue
+            out["%s.%s" % (modname, n)] = S(o)
+    return out
